@@ -28,7 +28,7 @@ import units  # noqa: E402
 LEVEL = 'proof'
 META = {
     'text': 'Coq theorems (Props/C08.v): (1) FULL crash-freedom of the Gallina crash models regenerated on every run from the '
-            'ClientHello checks of _serverGetClientHello, the ServerHello checks and the HelloRetryRequest handling of _clientGetServerHello (the latter under a hypothesis on the own hello), partial for the second ClientHello after HRR (one known site) (every partial '
+            'ClientHello checks of _serverGetClientHello, the ServerHello checks and the HelloRetryRequest handling of _clientGetServerHello (the latter under a hypothesis on the own hello) and the validation of the second ClientHello after HRR (every partial '
             'Python operation an explicit Crash outcome; for EVERY abstract parsed message, settings, oracle); (2) hand model '
             'of the error funnel (_getMsg/_sendError/_shutdown/read/write/close/handshake wrapper incl. its protocol-error '
             'alert clauses): any raising call leaves closed=true, resumable=false, mapped classes write the fatal alert '
@@ -38,7 +38,7 @@ META = {
             'running implementation (vm_compute); the direct oracle mutates the peer traffic of 28 handshake flavours (incl. the second message of HRR/resumption/PSK exchanges) in '
             'both roles against live endpoints.',
     'note': 'Partial: crash-freedom is proved only for the two translated hello regions; the rest of the handshake '
-            'coroutines is covered by the live mutation search only (5 known findings remain on HEAD). Trusted: Coq kernel + '
+            'coroutines is covered by the live mutation search only (one known finding remains on HEAD: unchecked CertificateVerify scheme, fix C08-18 proposed). Trusted: Coq kernel + '
             'vm_compute; translator/crashlite.py and the schema of parsed values (validated against the real parser and '
             'endpoints on every run); hand models C08_Funnel / C08_Work tied by correspondence only; decompressor contract '
             'is a premise (measured on the zlib call; brotli/zstd bindings not installed); work/memory thresholds are '
